@@ -143,7 +143,7 @@ def h_spec(n: int, s1: int, r1: int, fi: int, sg: int, al: int, w: int, an: int,
     if pick(an, 0, n_ansi - 1) is None:
         return None
     ansi = choose(an, ANSI[:n_ansi])
-    width = choose(w, (-1, 0, n, n + 1, n + 2, n + 3) if wide else (-1, n, n + 1, n + 2, n + 3))
+    width = choose(w, (-1, 0, n - 1, n, n + 1, n + 2, n + 3) if wide else (-1, max(n - 1, 0), n, n + 1, n + 2, n + 3))
     if width is None:
         return None
     if align is None and (fill is not None or sign is not None):
